@@ -265,11 +265,27 @@ def param_order(eng, res, rule="R-DIST-PARAM-ORDER"):
                 uses = [c_ for c_ in own_nodes(init.node) if isinstance(c_, ast.Call) and any(isinstance(a_, ast.Name) and a_.id == tmp for a_ in c_.args)]
                 if len(uses) == 1:
                     par = uses[0]
+            if isinstance(par, ast.Subscript) and par.value is sub and isinstance(par.slice, ast.Slice):
+                continue  # inner half of `raw[a:][b:c]`, judged with the outer subscript
+            lo, hi = _bound(sub.slice.lower), _bound(sub.slice.upper)
+            if isinstance(sub.value, ast.Subscript) and isinstance(sub.value.slice, ast.Slice):
+                lo1, hi1 = _bound(sub.value.slice.lower), _bound(sub.value.slice.upper)
+                if isinstance(lo1, int) and hi1 is None and (lo is None or (isinstance(lo, int) and lo >= 0)) and (hi is None or (isinstance(hi, int) and hi < 0)):
+                    lo = lo1 + (lo or 0)  # raw[a:][b:c] = raw[a + b : c] for a, b >= 0 and c < 0 / absent
+            # a window cut in two steps: `rest = raw[len(kw):]` … `float(rest[1:-1])` is raw[len(kw) + 1 : -1]
+            if isinstance(par, ast.Assign) and len(par.targets) == 1 and isinstance(par.targets[0], ast.Name) and hi is None and isinstance(lo, int):
+                tmp2 = par.targets[0].id
+                outer = [x for x in own_nodes(init.node) if isinstance(x, ast.Subscript) and isinstance(x.value, ast.Name) and x.value.id == tmp2 and isinstance(x.slice, ast.Slice)]
+                reads = [x for x in own_nodes(init.node) if isinstance(x, ast.Name) and x.id == tmp2 and isinstance(x.ctx, ast.Load)]
+                if len(outer) == 1 and len(reads) == 1 and len(single.get(tmp2, [])) == 1:
+                    lo2, hi2 = _bound(outer[0].slice.lower), _bound(outer[0].slice.upper)
+                    if (lo2 is None or (isinstance(lo2, int) and lo2 >= 0)) and (hi2 is None or (isinstance(hi2, int) and hi2 < 0)):
+                        lo, hi = lo + (lo2 or 0), hi2
+                        par = getattr(outer[0], "_parent", None)
             reader = callee_name(par) if isinstance(par, ast.Call) else None
             imp = init.module.imports.get(reader) if reader else None
             if imp and imp[1]:
                 reader = imp[1]  # `from ast import literal_eval as <alias>`
-            lo, hi = _bound(sub.slice.lower), _bound(sub.slice.upper)
             if reader in ("make_tuple", "literal_eval"):
                 okw, want = (lo, hi) == (len(kw), None), f"[{len(kw)}:]"
             elif reader == "float":
